@@ -6,6 +6,8 @@ package config
 
 // config.Setup has run before any handler, reader or client code executes.
 //@ global-invariant [config-loaded] Server != nil && Client != nil && Common != nil
+// A line length limit below one byte is not a usable configuration.
+//@ global-invariant [max-line-length-positive] Server.MaxLineLength >= 1
 
 // os.Hostname is assumed not to fail on a running server (environment).
 //@ func Hostname
